@@ -221,10 +221,13 @@ def run_case(case):
 def retry_case(case):
     """case = (mode, kind, attempts: tuple of outcome tuples)  mode in autoretry|rerun ; kind in S|O"""
     mode, kind, attempts = case
+    # an attempt is (outcome tuple, hook fault) with hook fault in None | "before_scenario" | "after_scenario"
+    attempts = tuple(a if (len(a) == 2 and isinstance(a[0], tuple)) else (a, None) for a in attempts)
+    case = (mode, kind, attempts)
     m = harness._imp()
     harness.reset_globals()
     from behave.contrib.scenario_autoretry import patch_scenario_with_autoretry
-    nsteps = len(attempts[0])
+    nsteps = len(attempts[0][0])
     item = P.S(("pass",) * nsteps) if kind == "S" else P.O((("pass",) * nsteps,), ncols=nsteps)
     feat = P.F((item, P.S(("pass",))), bg=None)
     text, meta = P.render(feat, 0)
@@ -239,7 +242,7 @@ def retry_case(case):
         def impl(ctx, n):
             if ctx.scenario.name.startswith("S0_2"):
                 return
-            plan = plans[min(state["attempt"], len(plans) - 1)]
+            plan = plans[min(state["attempt"], len(plans) - 1)][0]
             o = plan[(n - 1) % nsteps]
             if o == "fail":
                 assert False, "boom"
@@ -256,8 +259,15 @@ def retry_case(case):
         def before_scenario(ctx, sc):
             if not sc.name.startswith("S0_2"):
                 state["attempt"] += 1
+                if plans[min(state["attempt"], len(plans) - 1)][1] == "before_scenario":
+                    raise RuntimeError("flaky before_scenario")
+
+        def after_scenario(ctx, sc):
+            if not sc.name.startswith("S0_2"):
+                if plans[min(state["attempt"], len(plans) - 1)][1] == "after_scenario":
+                    raise RuntimeError("flaky after_scenario")
         runner = m["ModelRunner"](config, feats, step_registry=reg)
-        runner.hooks = {"before_scenario": before_scenario}
+        runner.hooks = {"before_scenario": before_scenario, "after_scenario": after_scenario}
         runner.formatters = []
         old = sys.stdout
         sys.stdout = io.StringIO()
@@ -268,7 +278,8 @@ def retry_case(case):
         f = feats[0]
         tgt = f.run_items[0]
         scs = list(tgt.scenarios) if kind == "O" else [tgt]
-        snap = (verdict, f.status.name, tgt.status.name, [s.status.name for s in scs],
+        # statuses only: the verdict legitimately remembers that a hook raised in an earlier attempt (C01)
+        snap = (None, f.status.name, tgt.status.name, [s.status.name for s in scs],
                 [[st.status.name for st in s.all_steps] for s in scs], f.run_items[1].status.name)
         return snap, feats
 
@@ -277,7 +288,9 @@ def retry_case(case):
         got, _ = one_run(list(attempts), True)
         # the retries stop at the first passing attempt
         def attempt_fails(a):
-            for o in a:
+            if a[1]:
+                return True
+            for o in a[0]:
                 if o in ("fail", "error"):
                     return True
                 if o == "skip":
@@ -301,6 +314,8 @@ def retry_case(case):
         v.append(({"subcheck": "history", "clause": "depends-on-earlier-run", "mode": mode, "kind": kind},
                   "%s over attempts %r ends with (verdict, feature, element, scenarios, steps, sibling)=%r; a fresh "
                   "run of the last attempt gives %r" % (mode, attempts, got, want)))
+    if v:
+        v[0][0]["hook_fault_in_earlier_attempt"] = str(any(a[1] for a in attempts[:-1]))
     return {"v": v, "nt": (mode, kind, attempts) if len(set(attempts)) > 1 else None, "out": got[1:4].__repr__(),
             "dg": got}
 
@@ -317,6 +332,15 @@ def retry_cases(tier):
                     continue
                 yield ("autoretry", kind, attempts)
                 yield ("rerun-reset", kind, attempts)
+                if na == 2:
+                    # a scenario-level hook raising in one attempt only (flaky hook)
+                    for hf1 in (None, "before_scenario", "after_scenario"):
+                        for hf2 in (None, "before_scenario", "after_scenario"):
+                            if (hf1 or hf2) and attempts[0].count("pass") == nsteps:
+                                h = ((attempts[0], hf1), (attempts[1], hf2))
+                                yield ("autoretry", kind, h)
+                                yield ("rerun-reset", kind, h)
+                                yield ("rerun", kind, h)
                 if not any("skip" in a for a in attempts[:-1]):
                     # a scenario excluded by user code (skip()) stays excluded until reset(): by design
                     yield ("rerun", kind, attempts)
